@@ -223,7 +223,7 @@ class Interp:
         site = "%s@%s#%d" % (fr.fi.qualname, getattr(node, "lineno", 0), len(self.alloc_site))
         t = T("alloc", kind, site)
         t.node = node
-        self.heap[t] = {"elts": [], "items": []}
+        self.heap[t] = {"elts": [], "items": [], "elts_at": [], "items_at": []}
         self.alloc_site[t] = (fr.fi, node, fr.stack)
         if cls is not None:
             self.alloc_class[t] = cls
@@ -348,7 +348,7 @@ class Interp:
             old = mksub(base, idx)
             new = self.binop(op, old, rhs)
             self.emit(fr, "store_sub", s, base=base, index=idx, value=new, aug=op, rhs=rhs)
-            self.heap_store(base, idx, new)
+            self.heap_store(base, idx, new, fr)
         return True
 
     def st_Delete(self, fr, s):
@@ -608,7 +608,7 @@ class Interp:
             base = self.eval(fr, target.value)
             idx = self.eval_index(fr, target.slice)
             self.emit(fr, "store_sub", stmt, base=base, index=idx, value=value, aug=None)
-            self.heap_store(base, idx, value)
+            self.heap_store(base, idx, value, fr)
         elif isinstance(target, ast.Starred):
             self.bind(fr, target.value, unknown("starred-target"), stmt)
 
@@ -653,10 +653,12 @@ class Interp:
                     return self.element_of(inner, lid)
         return T("iter", it, lid)
 
-    def heap_store(self, base, idx, value):
+    def heap_store(self, base, idx, value, fr=None):
+        at = (len(self.events), fr.loops if fr is not None else ())
         for b in tm.alts(base):
             if b in self.heap:
                 self.heap[b]["items"].append((idx, value))
+                self.heap[b]["items_at"].append(at)
 
     def elements_of(self, t, seen=None):
         """Possible elements of a container term (for callee resolution)."""
@@ -855,6 +857,7 @@ class Interp:
         elts = [self.eval(fr, x.value if isinstance(x, ast.Starred) else x) for x in e.elts]
         a = self.alloc(fr, "list", e)
         self.heap[a]["elts"].extend(elts)
+        self.heap[a]["elts_at"].extend([(len(self.events), fr.loops)] * len(elts))
         self.heap[a]["literal"] = tuple(elts)
         return a
 
@@ -862,6 +865,7 @@ class Interp:
         elts = [self.eval(fr, x) for x in e.elts]
         a = self.alloc(fr, "set", e)
         self.heap[a]["elts"].extend(elts)
+        self.heap[a]["elts_at"].extend([(len(self.events), fr.loops)] * len(elts))
         self.heap[a]["literal"] = tuple(elts)
         return a
 
@@ -873,6 +877,7 @@ class Interp:
             vv = self.eval(fr, v)
             items.append((kv, vv))
         self.heap[a]["items"].extend(items)
+        self.heap[a]["items_at"].extend([(len(self.events), fr.loops)] * len(items))
         self.heap[a]["literal"] = tuple(items)
         return a
 
@@ -1234,6 +1239,7 @@ class Interp:
             for b in tm.alts(recv):
                 if b in self.heap:
                     self.heap[b]["elts"].append(args[-1])
+                    self.heap[b]["elts_at"].append((len(self.events), fr.loops))
         if targets:
             results = []
             for fi, self_t, kind, clo in targets:
